@@ -58,7 +58,7 @@ func (s *seqRT) interp() *Interp {
 		// coroutine state they only ever replace the pending step (through Bind)
 		HavocKeep: func(key string) bool { return strings.HasPrefix(key, "c.") && key != "c.step" },
 		Inline: func(fn *ssa.Function) bool {
-			return fn.Pkg == seqPkg || (fn.Origin() != nil && fn.Origin().Pkg == seqPkg)
+			return fn.Pkg == seqPkg || (fn.Origin() != nil && fn.Origin().Pkg == seqPkg) || fnPkgPath(fn) == pathSeq
 		},
 	}
 }
@@ -66,6 +66,47 @@ func (s *seqRT) interp() *Interp {
 func (s *seqRT) account(in *Interp) {
 	s.c.Paths += in.Paths
 	s.c.States += in.Steps
+}
+
+// fnPkgPath: package of a function, also for synthetic wrappers (bound methods, instances).
+func fnPkgPath(fn *ssa.Function) string {
+	if fn == nil {
+		return ""
+	}
+	if fn.Pkg != nil {
+		return fn.Pkg.Pkg.Path()
+	}
+	if o := fn.Object(); o != nil && o.Pkg() != nil {
+		return o.Pkg().Path()
+	}
+	if o := fn.Origin(); o != nil {
+		return fnPkgPath(o)
+	}
+	if p := fn.Parent(); p != nil {
+		return fnPkgPath(p)
+	}
+	return ""
+}
+
+// closureField: name of the (single) field of a heap struct holding a closure.
+func closureField(o *Obj) string {
+	return fieldHolding(o, func(v AV) bool { _, ok := v.(Closure); return ok })
+}
+
+func fieldHolding(o *Obj, pred func(AV) bool) string {
+	if o == nil {
+		return ""
+	}
+	var names []string
+	for n, v := range o.Fields {
+		if pred(v) {
+			names = append(names, n)
+		}
+	}
+	if len(names) != 1 {
+		return ""
+	}
+	return names[0]
 }
 
 func symC() AV { return Sym{Name: "c", NN: true} }
@@ -335,11 +376,7 @@ func (s *seqRT) ruleSuspend() {
 		if good {
 			stepRef = evs[0].Args[0]
 			obj := o.St.Obj(stepRef)
-			good = obj != nil && obj.Kind == 's' && isSymNamed(obj.Fields["value"], "yv")
-			if good {
-				_, isClo := obj.Fields["next"].(Closure)
-				good = isClo
-			}
+			good = obj != nil && obj.Kind == 's' && fieldHolding(obj, func(v AV) bool { return isSymNamed(v, "yv") }) != "" && closureField(obj) != ""
 		}
 		if !c.check(good, "SEQ.SUSPEND", name+"(v,f) run", pos,
 			"stores a fresh step{value: v, next: resumption} in c.step and returns; neither f nor k is called (suspension)",
@@ -347,7 +384,7 @@ func (s *seqRT) ruleSuspend() {
 			continue
 		}
 		// SEQ.TAKE: the resumption
-		next := o.St.Obj(stepRef).Fields["next"]
+		next := o.St.Obj(stepRef).Fields[closureField(o.St.Obj(stepRef))]
 		o2 := in.Apply(o.St, next, []AV{Sym{Name: "recv"}})
 		construct := name + " resumption"
 		if len(o2) != 1 || o2[0].Panicked {
@@ -413,7 +450,7 @@ func (s *seqRT) ruleStart() (gen AV, st *State, in *Interp, ok bool) {
 		return nil, nil, nil, false
 	}
 	c.ok("SEQ.START", "Start(seq) result", pos, "returns a generator allocated inside Start (fresh per call); seq itself is not run")
-	next, isClo := gobj.Fields["next"].(Closure)
+	next, isClo := gobj.Fields[closureField(gobj)].(Closure)
 	if !isClo {
 		c.bad("SEQ.START", "generator.next", pos, "the fresh generator has no resumption closure in its next field")
 		return nil, nil, nil, false
@@ -447,7 +484,7 @@ func (s *seqRT) ruleStart() (gen AV, st *State, in *Interp, ok bool) {
 			continue
 		}
 		g := o3[0].St.Obj(d.V)
-		if g == nil || !isSymNamed(g.Fields["result"], "resv") {
+		if g == nil || fieldHolding(g, func(v AV) bool { return isSymNamed(v, "resv") }) == "" {
 			allOK = false
 		}
 		for _, e := range observable(o3[0].St.Events[len(o2[0].St.Events):]) {
@@ -491,7 +528,8 @@ func (s *seqRT) ruleForOnly(only func(fc forCase) bool) {
 	}
 }
 
-const (
+// exploration bounds of the loop tables (raised in the thorough tier)
+var (
 	maxBodyCalls = 3
 	maxResumes   = 2
 )
